@@ -3,6 +3,7 @@ Bridge between the traced Noh model and the documented formulas (see EPV/Robust.
 -/
 import EPV.Gen.Noh
 import EPV.Robust
+import EPV.Lemmas.HydroRobust
 
 set_option linter.all false
 open EPV EPV.Gen
@@ -21,5 +22,36 @@ theorem noh_not_c0_iff (p : Noh.P) (r t : ℝ) :
 /-- leaf 0 ⇔ the shock test holds -/
 theorem noh_leaf_zero_iff (p : Noh.P) (r t : ℝ) : Noh.leaf p r t = 0 ↔ Noh.c0 p r t := by
   simp only [epv_tree]; split_ifs with h <;> simp [h]
+
+/-! documented closed forms of the leaf fields: behind the shock (leaf 0) … -/
+
+theorem noh_L0_density (p : Noh.P) (r t : ℝ) :
+    Noh.L0.density p r t = p.rho0 * ((p.gamma + 1) / (p.gamma - 1)) ^ p.geometry := by
+  simp only [epv_leaf] <;> epv_hydro_closed
+
+theorem noh_L0_velocity (p : Noh.P) (r t : ℝ) : Noh.L0.velocity p r t = 0 := by
+  simp only [epv_leaf] <;> epv_hydro_closed
+
+theorem noh_L0_pressure (p : Noh.P) (r t : ℝ) :
+    Noh.L0.pressure p r t = (p.gamma - 1) * p.rho0 * ((p.gamma + 1) / (p.gamma - 1)) ^ p.geometry * p.u0 ^ 2 / 2 := by
+  simp only [epv_leaf] <;> epv_hydro_closed
+
+theorem noh_L0_sie (p : Noh.P) (r t : ℝ) : Noh.L0.specific_internal_energy p r t = p.u0 ^ 2 / 2 := by
+  simp only [epv_leaf] <;> epv_hydro_closed
+
+/-! … and ahead of it (leaf 1) -/
+
+theorem noh_L1_density (p : Noh.P) (r t : ℝ) :
+    Noh.L1.density p r t = p.rho0 * (1 + |p.u0| * t / r) ^ (p.geometry - 1) := by
+  simp only [epv_leaf] <;> epv_hydro_closed
+
+theorem noh_L1_velocity (p : Noh.P) (r t : ℝ) : Noh.L1.velocity p r t = p.u0 := by
+  simp only [epv_leaf] <;> epv_hydro_closed
+
+theorem noh_L1_pressure (p : Noh.P) (r t : ℝ) : Noh.L1.pressure p r t = 0 := by
+  simp only [epv_leaf] <;> epv_hydro_closed
+
+theorem noh_L1_sie (p : Noh.P) (r t : ℝ) : Noh.L1.specific_internal_energy p r t = 0 := by
+  simp only [epv_leaf] <;> epv_hydro_closed
 
 end EPV.Bridge
